@@ -964,13 +964,15 @@ var FieldWriteSet = `
 		{{- end}}
 		{{- if Features.ValidateSet}}
 		{{- $ctx := (.ValCtx.WithTarget "tgt").WithSource "src"}}
+		{{- $ref := ""}}
+		{{- if and .ValCtx.Type.Category.IsStructLike Features.ValueTypeForSIC}}{{$ref = "&"}}{{end}}
 		for i := 0; i < len({{.Target}}); i++ {
 			for j := i + 1; j < len({{.Target}}); j++ {
 		{{- if Features.GenDeepEqual}}
 				if func(tgt, src {{$ctx.TypeName}}) bool {
 					{{- template "FieldDeepEqual" $ctx}}
 					return true
-				}({{.Target}}[i], {{.Target}}[j]) {
+				}({{$ref}}{{.Target}}[i], {{$ref}}{{.Target}}[j]) {
 		{{- else}}
 				{{- UseStdLibrary "reflect"}}
 				if reflect.DeepEqual({{.Target}}[i], {{.Target}}[j]) {
